@@ -13,10 +13,11 @@ Lemma run_mono {A : Type} (r1 r2 : req -> res out) :
 Proof.
   intros M m. induction m as [r|q kOk IHok kErr IHerr]; intros H.
   - reflexivity.
-  - cbn [run] in *. destruct (r1 q) as [o| |] eqn:E.
+  - cbn [run] in *. destruct (r1 q) as [o|c es| |] eqn:E.
     + rewrite (M q) by (rewrite E; discriminate). rewrite E. apply IHok. exact H.
     + rewrite (M q) by (rewrite E; discriminate). rewrite E. apply IHerr. exact H.
     + exfalso. apply H. reflexivity.
+    + rewrite (M q) by (rewrite E; discriminate). rewrite E. reflexivity.
 Qed.
 
 Lemma go_mono T f : forall q, go T f q <> Fuel -> go T (S f) q = go T f q.
@@ -35,15 +36,17 @@ Qed.
 Lemma go_ok_le T f g q x : f <= g -> go T f q = Ok x -> go T g q = Ok x.
 Proof. intros Hle H. rewrite (go_mono_le T f g q Hle); [exact H|]. rewrite H. discriminate. Qed.
 
-Lemma go_err_le T f g q : f <= g -> go T f q = Err -> go T g q = Err.
+Lemma go_err_le T f g q c es : f <= g -> go T f q = Err c es -> go T g q = Err c es.
 Proof. intros Hle H. rewrite (go_mono_le T f g q Hle); [exact H|]. rewrite H. discriminate. Qed.
 
-Lemma run_ptry {A B : Type} (rec : req -> res out) (m : prog A) (k : A -> prog B) (e : prog B) :
+Lemma run_ptry {A B : Type} (rec : req -> res out) (m : prog A) (k : A -> prog B)
+  (e : ctx -> list nat -> prog B) :
   run rec (ptry m k e) =
   match run rec m with
   | Ok a => run rec (k a)
-  | Err => run rec e
+  | Err c es => run rec (e c es)
   | Fuel => Fuel
+  | Panic => Panic
   end.
 Proof.
   induction m as [r|q kOk IHok kErr IHerr].
@@ -56,3 +59,55 @@ Proof. unfold call. cbn [run]. destruct (rec q); reflexivity. Qed.
 
 Lemma run_ret {A : Type} (rec : req -> res out) (r : res A) : run rec (Ret r) = r.
 Proof. reflexivity. Qed.
+
+(* ------------------------------------------------------------------------------------------- *)
+(* Context::prev finds a token to stop on as soon as there is a non-comment token behind the cursor *)
+
+Definition not_comment (t : tok) : bool := match t with TComment => false | _ => true end.
+
+Lemma unwind_some : forall pre post,
+  existsb not_comment pre = true \/ match post with t :: _ => not_comment t = true | [] => True end ->
+  exists r, unwind pre post = Some r.
+Proof.
+  induction pre as [|x pre IH]; intros post H.
+  - destruct H as [H|H]; [discriminate|]. destruct post as [|t post]; [eexists; reflexivity|].
+    destruct t; try (eexists; reflexivity). discriminate.
+  - destruct post as [|t post]; [eexists; reflexivity|].
+    destruct t; try (eexists; reflexivity).
+    cbn [unwind]. apply IH. destruct H as [H|H]; [|discriminate].
+    cbn [existsb] in H. destruct x; cbn [not_comment] in *; try (right; reflexivity). left. exact H.
+Qed.
+
+Lemma strip_pre_app b ts : forall p, exists l, fst (strip b ts p) = l ++ p.
+Proof.
+  induction ts as [|t ts IH]; intros p; [exists []; reflexivity|].
+  destruct t as [| | | | | |k|]; try (exists []; reflexivity).
+  - cbn [strip]. destruct (IH (TComment :: p)) as [l Hl]. exists (l ++ [TComment]). rewrite Hl, <- app_assoc. reflexivity.
+  - destruct k; try (exists []; reflexivity). cbn [strip]. destruct b; [|exists []; reflexivity].
+    destruct (IH (TK KNewline :: p)) as [l Hl]. exists (l ++ [TK KNewline]). rewrite Hl, <- app_assoc. reflexivity.
+Qed.
+
+Lemma prev_some_of_pre c : over c = 0 -> existsb not_comment (pre c) = true -> exists cp, prev c = Some cp.
+Proof.
+  intros Ho H. unfold prev. rewrite Ho. destruct (pre c) as [|t p] eqn:Ep; [discriminate|].
+  destruct (unwind_some p (t :: post c)) as [[p1 p2] E].
+  - cbn [existsb] in H. destruct t; cbn [not_comment] in *; try (right; reflexivity). left. exact H.
+  - rewrite E. eexists. reflexivity.
+Qed.
+
+(* after eating a token that is not a comment, prev() has something to stop on *)
+Lemma prev_skip1_some c : token c <> TComment -> exists cp, prev (skip 1 c) = Some cp.
+Proof.
+  intros Tk. unfold skip, token in *. destruct (post c) as [|t ts] eqn:Ep.
+  - cbn [adv strip]. unfold prev. cbn [over]. rewrite Nat.add_comm. cbn [Nat.add]. eexists. reflexivity.
+  - cbn [adv].
+    assert (A : adv ts match t with TComment => 1 | _ => 0 end (t :: pre c) = (t :: pre c, ts, 0)).
+    { destruct t; try (destruct ts; reflexivity). congruence. }
+    rewrite A. destruct (strip_pre_app (nl c) ts (t :: pre c)) as [l Hl].
+    destruct (strip (nl c) ts (t :: pre c)) as [p2 q2] eqn:Es. cbn [fst] in Hl. subst p2.
+    destruct (over c + 0) as [|o] eqn:Eo.
+    + apply prev_some_of_pre; cbn [over pre]; [reflexivity|].
+      rewrite existsb_app. cbn [existsb]. destruct t; cbn [not_comment]; try (rewrite orb_true_r; reflexivity).
+      congruence.
+    + unfold prev. cbn [over]. eexists. reflexivity.
+Qed.
